@@ -149,6 +149,97 @@ def geometry_histories(rnd, tier):
     return hs
 
 
+def expiry_histories(rnd, tier):
+    """histories over the run-time universe exp<now> (NIP-40 tags running out 2 s after the universe was built): the
+    wall clock passes the expiration times in the middle of the history ('sleep' is a stuttering step of the spec)"""
+    S_ = lambda i: {"k": "store", "a": i}
+    RO, RB, Z = {"k": "reopen", "a": 0}, {"k": "rebuild", "a": 0}, {"k": "sleep", "a": 2600}
+    hs = [
+        [S_(i) for i in range(1, 11)] + [Z, {"k": "nop", "a": 0}, S_(1), S_(2), S_(3), S_(6), RO, RB, S_(7), {"k": "remove", "a": 1}, S_(1)],
+        [S_(1), S_(7), Z, S_(1), S_(7), S_(10), RB, S_(1)],
+        [S_(3), S_(4), Z, S_(3), RB, S_(3), S_(4)],
+        [S_(6), S_(2), S_(5), Z, S_(6), S_(2), RO, S_(5), {"k": "vanish", "a": 1}, S_(2)],
+        [S_(3), S_(9), Z, RB, S_(3), S_(9), S_(8)],
+        [Z, S_(1), S_(2), S_(4), S_(5), S_(9), S_(10), S_(3), RB, RO, S_(2)],
+    ]
+    for _ in range(2 if tier == "quick" else 10):
+        order = list(range(1, 11))
+        rnd.shuffle(order)
+        k = rnd.randint(2, 9)
+        tail = [rnd.choice([S_(rnd.randint(1, 10)), RO, RB, {"k": "remove", "a": rnd.randint(1, 10)}]) for _ in range(6)]
+        hs.append([S_(i) for i in order[:k]] + [Z] + [S_(i) for i in order[k:]] + tail)
+    return hs
+
+
+PAIR_FIELDS = ("retr", "corrupt", "delIds", "delAddr", "find", "ix", "extra")
+
+
+def stutter_pairs(uname, u, rnd, n_fail, n_rand):
+    """C16, 'with reopen/rebuild inserted at every position': in the specification reopen and rebuild are stuttering steps
+    of the observable state, so a history H and the same history with a reopen / rebuild inserted are ONE behaviour of the
+    spec modulo stuttering - the implementation must answer the remaining calls identically.  Returns (H, H', position).
+    Bases: covered edges whose last store is refused (the refused event is resubmitted after an obstacle has been removed:
+    state that a refused store may have left behind the abstract state is what a reopen would lose), and random histories."""
+    n = u["n"]
+    ev = {e["id"]: e for e in u["events"]}
+    bases = []
+    if n_fail:
+        edges, _ = S.sample_edges(uname, n_fail, rnd, pred=lambda res, h: h[-1]["k"] == "store" and res != "ok", frac=1.0)
+        for h in edges:
+            last = h[-1]
+            e = ev.get(last.get("a", 0))
+            named = [d["id"] for d in (e["dels"] if e else []) if d["t"] == "e" and isinstance(d.get("id"), int) and 1 <= d["id"] <= n]
+            same = [x["id"] for x in u["events"] if e and x["addr"] == e["addr"] != 0 and x["id"] != e["id"]]
+            cand = named + same + [last.get("a", 1)]
+            x = rnd.choice(cand) if rnd.random() < 0.8 else rnd.randint(1, n)
+            tail = [{"k": "remove", "a": x}, dict(last)] + [{"k": "store", "a": rnd.randint(1, n)} for _ in range(rnd.randint(0, 2))]
+            bases.append((h + tail, len(h)))
+    for _ in range(n_rand):
+        h = [op for op in S.random_history(u, rnd, rnd.randint(5, 10)) if op["k"] not in ("reopen", "rebuild")]
+        if len(h) >= 2:
+            bases.append((h, None))
+    pairs = []
+    for h, after in bases:
+        pos = after if (after is not None and rnd.random() < 0.6) else rnd.randint(1, len(h) - 1)
+        ins = rnd.choice([{"k": "reopen", "a": 0}, {"k": "reopen", "a": 1}, {"k": "rebuild", "a": 0}])
+        pairs.append((h, h[:pos] + [ins] + h[pos:], pos))
+    return pairs
+
+
+def compare_pairs(prop, pairs, tfiles, uname, u, V, conf):
+    """suffix of H vs suffix of H' (see stutter_pairs)"""
+    by_h = {}
+    for tp in tfiles:
+        for l in open(tp):
+            r = json.loads(l)
+            by_h.setdefault(r["h"], []).append(r)
+    nviol = ncmp = 0
+    for i, (h, h2, pos) in enumerate(pairs):
+        a = [r for r in by_h.get(2 * i, []) if r["k"] != "reset"]
+        b = [r for r in by_h.get(2 * i + 1, []) if r["k"] != "reset"]
+        if len(a) != len(h) or len(b) != len(h2) or b[pos]["res"] != "ok":
+            continue          # crashed / store unusable / reopen failed: judged by the per-line clauses, not here
+        if any(r["res"] in ("closed", "crash") for r in a + b):
+            continue
+        for j in range(pos, len(h)):
+            x, y = a[j], b[j + 1]
+            ncmp += 1
+            diff = [f for f in PAIR_FIELDS if x["st"].get(f) != y["st"].get(f)]
+            if x["res"] != y["res"]:
+                diff.insert(0, "result")
+            if diff:
+                nviol += 1
+                ins = h2[pos]
+                key = "C16:SuffixDiverges:%s:%s:%s" % (ins["k"], x["k"], x["res"].split(":")[0])
+                what = ("C16 violated (SuffixDiverges): after %s inserted at position %d, call %s(%d) answers %s instead of %s "
+                        "(differs in %s); history %s of universe %s" % (
+                            ins["k"], pos, x["k"], x["a"], y["res"], x["res"], ",".join(diff),
+                            [[o["k"], o["a"]] for o in h], uname))
+                V.violation(key, what, dict(kind="stutter_pair", universe=u, ops=h, ops2=h2, pos=pos, extra=False, probes=False))
+                break
+    return ncmp, nviol
+
+
 def run(prop, tier, seed, replay=None):
     conf = CONF[prop]
     V = C.Verdict(prop, tier, seed, "model_checking")
@@ -184,6 +275,8 @@ def run(prop, tier, seed, replay=None):
     if prop in ("C04", "C16", "C17"):
         upath = S.universe_path("sz")
         jobs.append(("sz", upath, json.load(open(upath)), geometry_histories(rnd, tier)))
+    # wall-clock dimension: expiration tags that run out while the history is running
+    jobs.append(("exp", None, None, expiry_histories(rnd, tier)))      # the universe is built when the job starts
     for j in range(n_ru):
         useed = seed * 1000 + j
         uname = "r%d" % useed
@@ -196,15 +289,31 @@ def run(prop, tier, seed, replay=None):
                     h.insert(rnd.randint(0, len(h)), extra_ops(rnd))
         jobs.append((uname, upath, u, hs))
 
+    pair_jobs = {}
+    if prop == "C16":
+        for uname in ("core", "c10", "c10b", "c16", "c11", "c09b"):
+            upath = S.universe_path(uname)
+            u = json.load(open(upath))
+            pairs = stutter_pairs(uname, u, rnd, 40 if tier == "quick" else 400, 15 if tier == "quick" else 150)
+            jname = uname + "~pairs"
+            pair_jobs[jname] = pairs
+            jobs.append((jname, upath, u, [x for h, h2, _ in pairs for x in (h, h2)]))
+    pair_cmp = 0
+
     for uname, upath, u, hs in jobs:
         if not hs:
             continue
+        if uname == "exp":
+            uname = "exp%d" % int(time.time())
+            upath = S.universe_path(uname)
+            u = json.load(open(upath))
         fpath = ""
         if conf["probes"]:
             fpath = os.path.join(wd, "filters_%s.json" % uname)
             json.dump(F.probe_filters(u), open(fpath, "w"))
         t0 = time.time()
-        tfiles = S.run_storedrv(bindir, upath, hs, wd, uname, filters_path=fpath or None, extra=conf["extra"])
+        tfiles = S.run_storedrv(bindir, upath, hs, wd, uname, filters_path=fpath or None, extra=conf["extra"],
+                                shards=min(len(hs), 2 * C.NCPU) if uname.startswith("exp") else None)
         t1 = time.time()
         bad, lines = S.judge(prop, upath, tfiles, fpath)
         t2 = time.time()
@@ -216,6 +325,11 @@ def run(prop, tier, seed, replay=None):
             all_scan["samples"] += [dict(universe=uname, history=s) for s in sc["samples"][:2]]
         C.log("[%s] %s: %d histories, %d lines, replay %.1fs, judge %.1fs, %d bad" %
               (prop, uname, len(hs), lines, t1 - t0, t2 - t1, len(bad)))
+        if uname in pair_jobs:
+            ncmp, nv = compare_pairs(prop, pair_jobs[uname], tfiles, uname, u, V, conf)
+            pair_cmp += ncmp
+            C.log("[%s] %s: %d pairs (history vs. history with reopen/rebuild inserted), %d calls compared, %d diverge" %
+                  (prop, uname, len(pair_jobs[uname]), ncmp, nv))
         seen_keys = {}
         for b in bad:
             e = u["events"][b["a"] - 1] if b["k"] == "store" and 1 <= b["a"] <= u["n"] else None
@@ -246,6 +360,8 @@ def run(prop, tier, seed, replay=None):
         edge_cover=edge_totals,
         exhaustive=False,
     )
+    if prop == "C16":
+        V.coverage["stutter_pairs"] = dict(pairs=sum(len(v) for v in pair_jobs.values()), calls_compared=pair_cmp)
     if prop == "C09":
         V.coverage["kinds_classified_and_validated"] = kinds_checked
     if prop in ("C09", "C11") and tier == "thorough":
@@ -307,6 +423,13 @@ def run_replay(prop, path, bindir, wd, V):
     if rp.get("probes"):
         fpath = os.path.join(wd, "filters.json")
         json.dump(F.probe_filters(rp["universe"]), open(fpath, "w"))
+    if rp.get("kind") == "stutter_pair":
+        pairs = [(rp["ops"], rp["ops2"], rp["pos"])]
+        tfiles = S.run_storedrv(bindir, upath, [rp["ops"], rp["ops2"]], wd, "replay", shards=1)
+        ncmp, nv = compare_pairs(prop, pairs, tfiles, "replay", rp["universe"], V, None)
+        V.coverage = dict(states=1, transitions=1, traces_validated_against_impl=2, samples=[rp["ops"]],
+                          evaluations=ncmp, distinct_nontrivial=max(2, ncmp), rule="replay of one recorded pair of histories")
+        return V.finish()
     tfiles = S.run_storedrv(bindir, upath, [rp["ops"]], wd, "replay", filters_path=fpath or None,
                             extra=rp.get("extra", False), shards=1)
     bad, lines = S.judge(prop, upath, tfiles, fpath)
